@@ -56,13 +56,13 @@ def main():
             continue
         B = onp.round(onp.linalg.inv(A))
         b = onp.array([[float(rng.randint(-3, 3)) for _ in range(p)] for _ in range(n)])
-        kind = ["InvVjp", "InvJvp", "SolveVjpA", "SolveVjpB", "SolveJvpA", "SolveJvpB", "SolveValue"][it % 7]
+        kind = ["InvVjp", "InvJvp", "SolveVjpA", "SolveVjpB", "SolveJvpA", "SolveJvpB", "SolveValue", "DetValue", "DetVjp"][it % 9]
         vec = (kind.startswith("Solve") and rng.random() < 0.3)       # b a vector (1-D) instead of a matrix
         if vec:
             p = 1
             b = b[:, :1]
         bb = b[:, 0] if vec else b
-        tshape = {"InvVjp": (n, n), "InvJvp": (n, n), "SolveVjpA": (n, p), "SolveVjpB": (n, p), "SolveJvpA": (n, n), "SolveJvpB": (n, p), "SolveValue": (n, p)}[kind]
+        tshape = {"DetValue": (1, 1), "DetVjp": (1, 1), "InvVjp": (n, n), "InvJvp": (n, n), "SolveVjpA": (n, p), "SolveVjpB": (n, p), "SolveJvpA": (n, n), "SolveJvpB": (n, p), "SolveValue": (n, p)}[kind]
         T = onp.array([[float(rng.randint(-3, 3)) for _ in range(tshape[1])] for _ in range(tshape[0])])
         Tv = T[:, 0] if (vec and kind in ("SolveVjpA", "SolveVjpB", "SolveJvpB")) else T
         try:
@@ -78,6 +78,10 @@ def main():
                 r, sh = make_jvp(lambda a: anp.linalg.solve(a, bb))(A)(T)[1], (n, p)
             elif kind == "SolveJvpB":
                 r, sh = make_jvp(lambda y: anp.linalg.solve(A, y))(bb)(Tv)[1], (n, p)
+            elif kind == "DetValue":
+                r, sh = onp.reshape(anp.linalg.det(A), (1, 1)), (1, 1)
+            elif kind == "DetVjp":
+                r, sh = make_vjp(anp.linalg.det)(A)[0](float(T[0, 0])), (n, n)
             else:
                 r, sh = anp.linalg.solve(A, bb), (n, p)
         except NotImplementedError as ex:
